@@ -566,7 +566,9 @@ func (a *sideEffectActor) hasInboxForwardingValues(c context.Context, inboxIRI *
 	for _, val := range types {
 		id, err := GetId(val)
 		if err != nil {
-			return false, err
+			// A value without an id cannot be owned by this server.
+			// It is still examined by the recursion below.
+			continue
 		}
 		err = a.db.Lock(c, id)
 		if err != nil {
